@@ -593,35 +593,73 @@ func truncateRule(r *Run) {
 		}
 	}
 	truncateBoundsSSA(r, f)
-	// R6
-	nOpt := 0
-	inspectBody(f.Decl.Body, false, func(nd ast.Node) bool {
-		switch x := nd.(type) {
-		case *ast.TypeAssertExpr:
-			if ix, ok := unparen(x.X).(*ast.IndexExpr); ok && objOf(info, ix.X) == types.Object(optsP) {
-				nOpt++
-				commaOK := false
-				switch p := w.Parent(x).(type) {
-				case *ast.AssignStmt:
-					commaOK = len(p.Lhs) == 2
-				case *ast.ValueSpec:
-					commaOK = len(p.Names) == 2
-				}
-				if commaOK {
-					r.Ok("R6", f.Name(), "option "+short(w.Fset, x), w.Pos(x.Pos()), "comma-ok assertion")
-				} else {
-					r.Bad("R6", f.Name(), "option "+short(w.Fset, x), w.Pos(x.Pos()), "an option of the wrong type panics the helper")
-				}
+	// R6, on the SSA form of the helper and of the unexported functions of its package it calls
+	_ = info
+	_ = optsP
+	fnS := w.SSAFunc(f)
+	if fnS == nil {
+		r.Lost("R6", "SSA form of truncate")
+		return
+	}
+	var optsV ssa.Value
+	for _, prm := range fnS.Params {
+		if _, ok := prm.Type().Underlying().(*types.Map); ok {
+			optsV = prm
+		}
+	}
+	isOpts := func(v ssa.Value) bool {
+		for i := 0; i < 6 && v != nil; i++ {
+			v = crossNorm(v)
+			if ct, ok := v.(*ssa.ChangeType); ok {
+				v = ct.X
+				continue
 			}
-		case *ast.AssignStmt:
-			for _, l := range x.Lhs {
-				if ix, ok := l.(*ast.IndexExpr); ok && objOf(info, ix.X) == types.Object(optsP) {
-					r.Bad("R6", f.Name(), "write to the options map "+short(w.Fset, x), w.Pos(x.Pos()), "writing defaults into the caller's map panics for a nil map and changes the caller's data")
+			break
+		}
+		return v != nil && v == optsV
+	}
+	fns := []*ssa.Function{fnS}
+	seen := map[*ssa.Function]bool{fnS: true}
+	nOpt := 0
+	for i := 0; i < len(fns) && i < 16; i++ {
+		for _, b := range fns[i].Blocks {
+			for _, ins := range b.Instrs {
+				switch x := ins.(type) {
+				case *ssa.Call:
+					if g := x.Call.StaticCallee(); g != nil && g.Pkg == fnS.Pkg && len(g.Blocks) > 0 && !seen[g] && g.Object() != nil && !g.Object().Exported() {
+						seen[g] = true
+						fns = append(fns, g)
+					}
+				case *ssa.Lookup:
+					if !isOpts(x.X) {
+						continue
+					}
+					for _, ref := range *x.Referrers() {
+						ta, ok := ref.(*ssa.TypeAssert)
+						if !ok {
+							continue
+						}
+						nOpt++
+						con := "option " + typeStr(ta.AssertedType)
+						if k, ok := x.Index.(*ssa.Const); ok && k.Value != nil {
+							con = "option " + k.Value.ExactString() + " as " + typeStr(ta.AssertedType)
+						} else if k, ok := crossNorm(x.Index).(*ssa.Const); ok && k.Value != nil {
+							con = "option " + k.Value.ExactString() + " as " + typeStr(ta.AssertedType)
+						}
+						if ta.CommaOk {
+							r.Ok("R6", ssaName(fns[i]), con, w.Pos(ta.Pos()), "comma-ok assertion")
+						} else {
+							r.Bad("R6", ssaName(fns[i]), con, w.Pos(ta.Pos()), "an option of the wrong type panics the helper")
+						}
+					}
+				case *ssa.MapUpdate:
+					if isOpts(x.Map) {
+						r.Bad("R6", ssaName(fns[i]), "write to the options map", w.Pos(x.Pos()), "writing defaults into the caller's map panics for a nil map and changes the caller's data")
+					}
 				}
 			}
 		}
-		return true
-	})
+	}
 	if nOpt == 0 {
 		r.Bad("R6", f.Name(), "options are not read", w.Pos(f.Decl.Pos()), "size and trail must come from the options")
 	}
